@@ -205,6 +205,20 @@ func TestC01Free(t *testing.T) {
 				}
 				return mu.TryLock()
 			}
+			// probe: called by a goroutine that holds the lock (in write mode or not); a conflicting
+			// TryLock issued by the holder itself must fail
+			probe := func(write bool, how string) {
+				if rel, ok := try(true); ok {
+					f.add("C01", "csync:exclusion", "a write TryLock succeeded while its caller holds the lock (write=%v, acquired through %s)", write, how)
+					rel()
+				}
+				if write && cs.RW {
+					if rel, ok := try(false); ok {
+						f.add("C01", "csync:exclusion", "a read TryLock succeeded while its caller holds the write lock (acquired through %s)", how)
+						rel()
+					}
+				}
+			}
 			sharedW, sharedR := mu.Locker(), mu.Locker()
 			if cs.RW {
 				sharedW, sharedR = rw.Locker(), rw.RLocker()
@@ -233,11 +247,23 @@ func TestC01Free(t *testing.T) {
 								}
 							}()
 						}
-						l.Lock()
-						enter(write)
-						runtime.Gosched()
-						leave(write)
-						l.Unlock()
+						// (sometimes in a burst: the Locker's own bookkeeping is shared state, too)
+						reps := 1
+						if op%2 == 1 {
+							reps += op % 17
+						}
+						for i := 0; i < reps; i++ {
+							l.Lock()
+							enter(write)
+							if i%4 == 0 {
+								runtime.Gosched()
+							}
+							if (op+i)%3 == 0 {
+								probe(write, "a shared Locker")
+							}
+							leave(write)
+							l.Unlock()
+						}
 					case 0, 1:
 						bl.block(func(ctx context.Context) {
 							ctx, cancel := context.WithCancel(ctx)
@@ -249,6 +275,9 @@ func TestC01Free(t *testing.T) {
 							if err == nil {
 								enter(write)
 								runtime.Gosched()
+								if op%4 == 1 {
+									probe(write, "Lock")
+								}
 								leave(write)
 								rel()
 								if op%5 == 0 {
@@ -295,7 +324,7 @@ func TestC01Free(t *testing.T) {
 // ---- C11: exactly one SetResult wins, everyone sees it ----
 
 func TestC11Free(t *testing.T) {
-	drive(t, "C11", "2..10 goroutines with real parallelism: SetResult / Await races on 1..8 promises, and on one PromiseContainer {SetPromise(resolved promise carrying the goroutine's next stamp) followed by Await, GetPromise+Await}; oracle: exactly one SetResult per promise returns true and every Await returns that call's value; a container await returns the current promise's result: after its own SetPromise returned a goroutine never gets one of its own older stamps, and the stamps of one writer seen by one reader never go backwards; non-trivial iff >= 2 goroutines; distinct by program", 16,
+	drive(t, "C11", "2..10 goroutines with real parallelism: SetResult / Await races on 1..8 promises, and on one PromiseContainer {SetPromise(resolved promise carrying the goroutine's next stamp) followed by Await, GetPromise+Await}; holders sometimes probe the lock themselves (a conflicting TryLock by the holder must fail); oracle: exactly one SetResult per promise returns true and every Await returns that call's value; a container await returns the current promise's result: after its own SetPromise returned a goroutine never gets one of its own older stamps, and the stamps of one writer seen by one reader never go backwards; non-trivial iff >= 2 goroutines; distinct by program", 16,
 		func(cs Case, v *ev.Verdict) {
 			f := &failer{v: v}
 			prs := make([]*promise.Promise[int], cs.Objs)
